@@ -227,3 +227,10 @@ Example C04_base_product_nonvacuous :
   exists t x', ser_ti ex_ti_layered None = Ok t /\ deser_ti t = Ok x' /\ truthy (getf (ti_release ex_ti_layered) (F"is_layered")) = true /\
     getf (ti_base_product x') (F"short") = PStr (F"RHEL").
 Proof. exact base_product_nonvacuous. Qed.
+
+(* the re-read top-level variants are keyed by their UIDs, each key once (whatever their number or shape) *)
+Theorem C04_reread_variants_keyed_by_uid :
+  forall x mv t x', ser_ti x mv = Ok t -> deser_ti t = Ok x' ->
+  NoDup (map fst (ti_variants x')) /\ (forall k v, In (k, v) (ti_variants x') -> k = fmt_s (getf (tv_fields v) (F"uid"))).
+Proof. exact reread_variants_keyed_by_uid. Qed.
+Print Assumptions C04_reread_variants_keyed_by_uid.
